@@ -7,8 +7,8 @@ from . import trajgen as G
 RULE = ("abstract trajectories (scale 1..127, 0..8 segments, every combination of constant/linear/cubic/degree-7 per axis, "
         "durations from {1,2,999,1000,59999,60000,60001,65535} and random, coordinates incl. +-32767/-32768, any stored yaw) "
         "encoded by the generator; fresh-player position queries at, one ulp before and after every segment boundary, interior "
-        "fractions, 0, -0, negative, +-inf, far future; start/end helpers; the five ways of asking the duration; plus the "
-        "trajectory blocks of the repository fixtures. Non-trivial = at least one segment and one successful interior query.")
+        "fractions, 0, -0, negative, +-inf, far future; start/end helpers; the five ways of asking the duration; blocks longer than 64 KiB probed beyond "
+        "byte offset 65536; plus the trajectory blocks of the repository fixtures. Non-trivial = at least one segment and one successful interior query.")
 EXPLANATION = ("positions: |impl - exact| <= tol_at (Coq, Spec/TrajSpec.v) + 2^-22 |exact| per component; header fields, "
                "durations and segment counts exact")
 ASSUMPTIONS = ["float32 rounding bound tol_at is an assumed (not proved) bound with a safety factor 4; zero-duration segments are not probed at their own instant"]
@@ -43,6 +43,17 @@ def cases(rng, tier):
         degs = [{0: 0, 1: 1, 2: 3, 3: 7}[(hb >> s) & 3] for s in (0, 2, 4, 6)]
         tr = G.rand_traj(rng, nseg=2, degs=degs)
         yield ("traj f %s %s" % (hexs(G.encode(tr)), queries(rng, tr, 8, KINDS)), "hdr-all")
+    # blocks longer than 64 KiB: segments, boundaries and the end beyond byte offset 65536
+    for i in range(10 if tier == "thorough" else 3):
+        tr = G.rand_traj(rng, nseg=rng.choice([2, 3, 5]))
+        st = tr["start"]
+        pre = G.long_prefix(rng, st[0], st[1], st[2], deg=rng.choice([3, 7]), flat_z=False, dur=rng.choice([1, 10, 50]))
+        tail = dict(scale=tr["scale"], use_yaw=tr["use_yaw"], start=st, segs=tr["segs"])
+        t0 = sum(s["dur"] for s in pre) / 1000.0
+        ts = [G.f32(t0 + t) for t in G.probe_times(rng, tail, 14)] + [G.f32(t0 * 0.5), 0.0, float("inf")]
+        tr["segs"] = pre + tr["segs"]
+        yield ("traj f %s %s,d00000000" % (hexs(G.encode(tr)), ",".join("p" + fhex(t) for t in ts)), "long-block")
+        yield ("traj h %s %s,d00000000,p%s" % (hexs(G.encode(tr)), ",".join("p" + fhex(t) for t in ts[:6]), fhex(ts[2])), "long-block-history")
     for i in range(n):
         tr = G.rand_traj(rng, allow_zero_dur=(i % 10 == 0))
         q = queries(rng, tr, 12, KINDS)
